@@ -509,19 +509,39 @@ func check(prop, tierArg string) int {
 		if v := os.Getenv("VERIF_MAXRUNS"); v != "" {
 			env = append(env, "VERIF_MAXRUNS="+v)
 		}
-		stageResults := make([]workerRun, nworkers)
-		var wg sync.WaitGroup
-		for i := 0; i < nworkers; i++ {
-			wg.Add(1)
-			go func(i int) {
-				defer wg.Done()
-				e := append(append([]string{}, env...), "VERIF_WORKER="+strconv.Itoa(i))
-				// minimisation may add up to ~100 s after the budget
-				stageResults[i] = runWorker(b, i, e, time.Duration(wallS)*time.Second+240*time.Second)
-			}(i)
+		gens := 1
+		if sh.generations > 1 && os.Getenv("VERIF_MAXRUNS") == "" {
+			gens = sh.generations
+			if tier == "thorough" {
+				gens *= 3
+			}
 		}
-		wg.Wait()
-		results = append(results, stageResults...)
+		env[3] = "VERIF_NWORKERS=" + strconv.Itoa(nworkers*gens)
+		env[4] = "VERIF_WALL_S=" + strconv.Itoa(max(wallS/gens, 1))
+		for g := 0; g < gens; g++ {
+			stageResults := make([]workerRun, nworkers)
+			var wg sync.WaitGroup
+			for i := 0; i < nworkers; i++ {
+				wg.Add(1)
+				go func(i int) {
+					defer wg.Done()
+					e := append(append([]string{}, env...), "VERIF_WORKER="+strconv.Itoa(g*nworkers+i))
+					// minimisation may add up to ~100 s after the budget
+					stageResults[i] = runWorker(b, g*nworkers+i, e, time.Duration(wallS/gens)*time.Second+240*time.Second)
+				}(i)
+			}
+			wg.Wait()
+			results = append(results, stageResults...)
+			found := false
+			for _, r := range stageResults {
+				if r.out != nil && len(r.out.Violations) > 0 {
+					found = true
+				}
+			}
+			if found {
+				break
+			}
+		}
 		b.cleanup()
 	}
 
